@@ -131,14 +131,16 @@ def _homogeneous_receivers(fi):
     return sorted(k.name for k in receiver_classes(program(), f) if k.name in HOMOGENEOUS)
 
 
-def check_unchecked_sites(run, rule='R15c', only=None):
-    """only: restrict to methods with these names (the group operations, for C02)"""
+def check_unchecked_sites(run, rule='R15c', only=None, keys=None):
+    """only: restrict to methods with these names (the group operations, for C02); keys: restrict to these functions"""
     prog = run.prog
     n = 0
     for f in prog.analysed_functions():
         if f.module.short.startswith('base/') or f.module.short == 'timing':
             continue
         if only is not None and f.name not in only:
+            continue
+        if keys is not None and f.key not in keys:
             continue
         fi = FuncInfo.of(f)
         for c in own_walk(f.node):
